@@ -76,7 +76,7 @@ PROPS.update({
         proved=['for every kind in the generated table, both modes, every in-domain value: decode (encode p ++ rest) = p with exactly the frame consumed (generic layout theorem T2, proved once by induction over layouts, + customs on explicit domains + Codec framing)',
                 'a frame the encoder produced from an in-domain packet decodes to a packet that re-encodes to the identical bytes',
                 'per-custom round trips on explicit decidable domains (race laps, fuel, Small incl. all 2^32 wire values by arithmetic, CIM, game version text, nibbles, vehicle, track)'],
-        modelled=WIRE_MODELLED, assumptions=['Mso is covered by correspondence only (its round trip is not proved: name/message re-splitting depends on the codepage layer)',
+        modelled=WIRE_MODELLED, assumptions=['IS_MSO (hand-written codec) is inside the theorem since mso_roundtrip (domain: bytes in range, user type listed, name and message NUL-free and together at most 128 bytes); its text is bytes here (the name/message split across codepage conversion is exercised by the correspondence with Latin-1 names)',
                                             'in-domain = pindom (decidable): integers in range, enumerants listed, flags within the mask, bool 0/1, char < 256, durations multiples of the scale within range, NUL-free text no longer than the field, element count fits the count byte and the cap']),
     'C03': dict(gens=['vehicle', 'track', 'consts', 'packets'], coq_targets=['Props/C03.vo'], coqchk_modules=['Props.C03'], group='wire', harness='c03', axioms_allowed=[],
         proved=['every successful encoding, any value, both modes: complete frame for the mode, length multiple of 4 (generic length theorem T1 + decidable per-layout size conditions checked on all 73 generated layouts), exact size byte, type byte = kind',
